@@ -244,3 +244,36 @@ def c20_pairing(prog):
                     break
         out.append(GroundOb(f"C20.pair[{name}]", not probs, "; ".join(probs[:3]), witness={"class": name}))
     return out
+
+
+def c16_atomicity(prog):
+    """C16.AT1[gen]: the read that produces the returned identifier and the update lie in one atomic region."""
+    from pyvc import atom
+    out = []
+    for cls, method in (("SequenceGenerator", "next_sequence"), ("SessionGenerator", "next_id")):
+        ok, detail, wit = atom.check_rmw_atomic(prog, cls, method, "_sequence")
+        out.append(GroundOb(f"C16.AT1[{cls}.{method}]", ok, detail, backend="atomicity-ast", witness=wit))
+    return out
+
+
+def c16_format(prog):
+    """C16.sess.format: identity;hex8;hex8;hex8[;opt...] at the counter boundaries (ground, boundary values);
+    C16.callers: every hop-by-hop / end-to-end id in the node package is drawn through next_sequence()."""
+    import re
+    h = real("diameter.node._helpers")
+    out = []
+    g = h.SessionGenerator("host.example")
+    probs = []
+    for start in (0, 1, 2 ** 32 - 1, 2 ** 32, 2 ** 64 - 3, 2 ** 64 - 2, 2 ** 64 - 1):
+        g._sequence = start
+        sid = g.next_id()
+        want = 1 if start == 2 ** 64 - 1 else start + 1
+        m = re.fullmatch(r"host\.example;([0-9a-f]{8});([0-9a-f]{8});([0-9a-f]{8})", sid)
+        if not m or int(m.group(2) + m.group(3), 16) != want or m.group(1) != g._base_value:
+            probs.append(f"start {start}: {sid}")
+        g._sequence = start
+        sid2 = g.next_id("a", "b")
+        if not sid2.startswith(sid + ";") or sid2 != sid + ";a;b":
+            probs.append(f"optional parts: {sid2}")
+    out.append(GroundOb("C16.sess.format[boundaries]", not probs, "; ".join(probs), backend="ground"))
+    return out
